@@ -60,7 +60,7 @@ claim("C09",
       "readonly-checking remover, that the command scope guard / post_execute pop is "
       "reached on every SimpleCommand dispatch path, that enter/leave_function pair, and that child environments come from one "
       "env_clear + iter_exported site that skips unset values and arrays, that a declaration with a value tests readonly before any attribute "
-      "change or conversion of the existing variable, and that every yes/no test of the array kind counts the declared-but-unassigned kind (the -A/-a attribute "
+      "change or conversion of the existing variable, that +c/+l/+u reset the case transform only when it is the one set, and that every yes/no test of the array kind counts the declared-but-unassigned kind (the -A/-a attribute "
       "shapes the first assignment).",
       "Trusted: rustc MIR and field resolution. Not decided: dynamic-scoping visibility, attribute effects (-i -l -u), bash equality. "
       "Known finding: ShellEnvironment::add shadows readonly variables (local / temporary assignments).",
@@ -181,7 +181,7 @@ claim("C14",
       "(program, arithmetic and test grammars; 84 rows), that the [[ ]] and test predicate tables agree, that every Display loop "
       "reachable from FunctionDefinition separates its items, that every Display impl of an AST node reads every field of its node "
       "(locations and one reviewed derived field excepted) and in the order the grammar binds them, that the BASH_FUNC reader accepts what "
-      "the writer emits, that all operator → implied-descriptor tables agree, that here-document terminators are printed unquoted and bodies are not "
+      "the writer emits and runs only after the parser-relevant options have their start-up values, that all operator → implied-descriptor tables agree, that here-document terminators are printed unquoted and bodies are not "
       "written through an indenting adaptor (both fail today: two known findings), and that export / declare -f print through the same "
       "Display impl.",
       "Trusted: rustc MIR; peg source inspection. Known findings: here-documents inside printed functions. Not decided: parse∘print "
